@@ -15,10 +15,11 @@ for path in sys.argv[1:]:
         r = subprocess.run(["make", rel[:-2] + ".vo"], cwd=COQ, capture_output=True, text=True)
         if r.returncode == 0:
             print("ok", rel); break
-        m = re.search(r'File "\./(%s)".*?\n(?:.*\n)?Error: The reference (\S+) was not found' % re.escape(rel), r.stdout + r.stderr)
+        m = re.search(r'File "\./(theories/[^"]+)".*?\n(?:.*\n)?Error:\s+The reference (\S+) was not found', r.stdout + r.stderr)
         if not m:
             print("other error in", rel, (r.stdout + r.stderr)[-600:]); break
         name = m.group(2)
+        path = os.path.join(COQ, m.group(1))  # the file that actually failed (possibly a dependency)
         us = units_defining(name)
         if not us:
             print("no Gen unit defines", name); break
